@@ -504,6 +504,9 @@ func runC16(c *Ctx) {
 		// over — follows the overlay's classification: a staged delete wins over dirty, so a
 		// key overwritten and then deleted in one block is absent from the resulting state
 		checkCommitAlgebraAs(c, "C16.R7 commit-classification", commitFn)
+		// R8: snapshot ids: the rollback point ExecuteTransaction takes on the root store must not
+		// be replaced by a snapshot a command takes through a prefix view of the same store
+		checkTableAndCounterTogether(c, "C16.R8 snapshot-ids-do-not-collide", "db/diffdb", "Database")
 		snap := c.Anchor("pkg/db/diffdb.(*Database).Snapshot")
 		rest := c.Anchor("pkg/db/diffdb.(*Database).RestoreSnapshot")
 		if snap != nil && rest != nil {
